@@ -263,6 +263,14 @@ func c03Handover(e *Env) {
 			return nm == "pkg/sync.Map.LoadOrStore" && strings.HasSuffix(tableOf(ci), ".tokenHandlerContainer")
 		}) {
 			cont = core.FuncArgClosure(core.Arg(c, 2))
+			if cont == nil {
+				// registered through a shared helper: the handler this function passes in
+				for _, v := range core.ResolveIn(f, core.Arg(c, 2)) {
+					if g := core.FuncArgClosure(v); g != nil {
+						cont = g
+					}
+				}
+			}
 		}
 		if cont == nil || len(cont.Params) != 2 {
 			e.R.Fail(rule, q+":continuation", e.fpos(f), "the registered continuation is not a function literal")
